@@ -65,6 +65,57 @@ LINE_STARTS = ["", "", "", "# ", "## ", "###### ", "####### ", "> ", ">", "- ", 
                "```{toc}", "   :class: c", ":depth: 2", "- [ ] ", "- [x] ", ">! ", "* * *", "1. 1. ", "> - ", "- > ", ">     ", "-     "]
 
 
+# syntax of the plugins' inline / block rules (formatting, url, math, speedup, ruby, spoiler): delimiters, well-formed
+# spans, escaped and unclosed forms.  Used by the model correspondence (corr_model.py) for configurations with plugins;
+# the stock generators above are unchanged.
+PLUGIN_TOKS = ["~~", "~~", "==", "==", "^^", "^^", "^", "^", "~", "~", "$", "$", "$$", "~~~", "===", "^^^", "\\~", "\\=", "\\^", "\\$", "\\ ",
+               "~~del~~", "~~a b~~", "~~a ~~", "~~ a~~", "~~a\\~~~", "~~a~~~", "~~*e*~~", "~~[x](/u)~~", "~~`c~~`", "~~<b>~~", "~~a\nb~~",
+               "==mark==", "==a b==", "==a\\===", "==*e*==", "==a ==", "== a==", "==[foo]==", "==a~~b==c~~",
+               "^^ins^^", "^^a b^^", "^^a\\^^^", "^^a ^^", "^^*e*^^", "^^a^b^^^",
+               "^sup^", "^a\\ b^", "^a b^", "^a\\^b^", "^^", "^*e*^", "^[x](/u)^", "2^10^", "^a^b^",
+               "~sub~", "~a\\ b~", "~a b~", "~a\\~b~", "H~2~O", "~*e*~", "~a~b~", "~~~a~",
+               "$m$", "$a b$", "$ a$", "$a $", "$a$b$", "$$x$$", "$a\\$b$", "$*e*$", "$`c`$", "$<b>$", "$a\nb$", "$\n$", "$1 and $2",
+               "http://a.b/c", "https://e.f", "http://a.b/c.", "https://e.f/g,h;", "http://a.b/c)", "http://a.b/(c)", "http://a.b/<c", "http://é.ß/ü?q=%20&x=1",
+               "HTTP://A.B", "http://", "https://x", "http://a.b/c\"d", "[http://a.b/c](/u)", "<a>http://a.b/c</a>", "*http://a.b/c*", "http://a.b/&amp;&#35;",
+               "http://a_b_c.d/e_f_", "http://a.b/`c`", "xhttp://a.b/c", "http:", "https:", "http:/a",
+               "[漢字(kanji)]", "[a(b)]", "[a(b)c(d)]", "[a(b c)]", "[a(b)](/u)", "[a(b)](/u \"t\")", "[a(b)][foo]", "[a(b)][FOO]", "[a(b)][zz]", "[a(b)][]",
+               "[a(b)][c(d)]", "[a(b)][c(d)](/u)", "[a(b)](", "[a(b)][", "[a()]", "[(b)]", "[a(b)", "[a(b) ]", "[a_1(b_2)]", "![a(b)]", "[a(b)](<u v>)", "[a(b)][a b]",
+               ">!", "!<", ">!s!<", ">! s !<", ">!*e*!<", ">!a\nb!<", ">!  !<", ">!a!< >!b!<", ">!>!x!<!<", ">![x](/u)!<", ">!`c!<`",
+               " ", " ", "\n", "  \n", " \n", "\\\n", "\n  ", "   \n   ", "\t\n"]
+
+PLUGIN_LINES = ["$$", "$$", "$$ ", " $$", "   $$", "    $$", "$$\t", "$$x", "x$$", "$$\nx\n$$", "$$\n\n$$", "$$\nx\n$$\n$$\ny\n$$", "$$\n- a\n$$", "> $$\n> x\n> $$", "- $$\n  x\n  $$",
+                "$$\nx\n $$", "$$\nx\n$$ y", "a\n$$\nx\n$$", "$$\n$$", "$$\n```\n$$\n```",
+                "alpha beta", "alpha", "éa b", "_a_ b", "a", "a  ", "a\\", "1a", "-a", "ab\tc", "Z: y", "word word  ", "x <b> y", "x `c` y",
+                ">! a", ">! a\n>! b", ">!a\n> b", ">! a\nb", " >! a", ">!\n>! b", ">! - a\n>! - b", "- >! a", "> >! a", ">! > a", ">!    code", ">! ```\n>! x\n>! ```", ">! a\n\n>! b",
+                ">! a\n***", ">! a\n- b", "!a", "! a", ">!a!<", ">! # h", ">!\ta"]
+
+
+def md_inline_plugins(rng, maxlines=6, maxtoks=8):
+    """a document rich in the plugins' syntax: lines of words, stock inline tokens and PLUGIN_TOKS; block math, spoiler
+    quotes and plain-paragraph lines (speedup) between them"""
+    lines = []
+    for _ in range(rng.randint(1, maxlines)):
+        r = rng.random()
+        if r < 0.1:
+            lines.append("")
+        elif r < 0.3:
+            lines.append(rng.choice(PLUGIN_LINES))
+        else:
+            parts = [rng.choice(LINE_STARTS) if rng.random() < 0.3 else ""]
+            for _ in range(rng.randint(0, maxtoks)):
+                q = rng.random()
+                if q < 0.35:
+                    parts.append(rng.choice(WORDS))
+                    if rng.random() < 0.7:
+                        parts.append(" ")
+                elif q < 0.75:
+                    parts.append(rng.choice(PLUGIN_TOKS))
+                else:
+                    parts.append(rng.choice(INLINE_TOKS))
+            lines.append("".join(parts))
+    return "\n".join(lines) + rng.choice(["\n", "\n", "", "\n\n"])
+
+
 def md_line(rng, maxtoks=8):
     parts = [rng.choice(LINE_STARTS)]
     for _ in range(rng.randint(0, maxtoks)):
